@@ -66,7 +66,7 @@ ResidueBits(s, r, halfblock, nch, salt) ==
            THEN Cat([j1 \in 1..chans |->
                   LET jj == j1 - 1  c == Cls(r, l * dimG + k, jj, salt) IN
                   IF HasStage(r, c, st)
-                  THEN LET bk == StageBook(r, c, st) nvec == r.psize \div s.books[bk + 1].dim
+                  THEN LET bk == StageBook(r, c, st) d == s.books[bk + 1].dim  nvec == IF r.type = 0 THEN r.psize \div d ELSE (r.psize + d - 1) \div d   \* type 0 interleaves whole vectors only; 1 and 2 read until the partition is full
                        IN Cat([v \in 1..nvec |-> Word(s, bk, Pick(s, bk, salt + 5 * (l * dimG + k) + 11 * jj + 13 * v + st))])
                   ELSE <<>>])
            ELSE <<>>])])])
